@@ -62,5 +62,21 @@ claim("C18", "write-set / field-coverage analysis + constant regexp tree compari
       "Decides: exactly the six fields are rewritten, each from itself over the whole list; pairs are (\"{\"+name+\"}\", value); name pattern equals "
       "^[a-zA-Z0-9_-]+$ with failing mismatch; one Replacer, one Replace per original string; empty dictionary returns the input; order independence; "
       "no write through the argument's memory. Does not decide strings.Replacer's algorithm.", "4.18")
-for i in [13,15,19,20]:
-    na("C%02d" % i, "check under construction in this commit; see DESIGN.md section 4 for the planned structural clauses")
+claim("C13", "constant table + SSA provenance of hashed bytes / digests + dominance facts over the walk callback + def-use of the three-way difference",
+      "Decides: hash algorithm table; RecordArtifact hashes the bytes of the named file, rewrites only under lineNormalization, fails on unknown algorithms, "
+      "stores each digest under the name whose constructor computed it; walk discipline (errors returned, exclusion before hashing, dir symlinks only on request, "
+      "cycle and collision errors, ToSlash, fresh visited set); snapshot discipline of run/record start/stop; InTotoMatchProducts' three results. Does NOT decide "
+      "completeness of the walk, symlink semantics on real trees or digest values.", "4.13")
+claim("C15", "panic-site obligation analysis over SSA: explicit panics, unchecked assertions, index/slice bound idioms with length facts (disjunctive, phi-aware, callee summaries), nil-deref and nil-map facts",
+      "Decides absence of reachable, unguarded panic sites in in_toto code reachable from the loading/validating/signing/verifying entry set: every explicit panic, "
+      "unchecked assertion, index/slice expression, raw-part / inner-envelope dereference and map write is discharged by a dominating guard on the same value or a "
+      "reviewed entry with a checked fact; asserting securesystemslib constructors only after material validation. Termination is NOT decided beyond evident loop counters "
+      "and the pipe-deadlock clause.", "4.15")
+claim("C19", "map-literal / type-switch table extraction + provenance of key halves + parser-set check",
+      "Decides: key-id preimage members and their sources (no private material), sha256+hex; per parsed type the right public/private bytes and key-type constant; "
+      "default scheme table; private half only under the length guard from private bytes with the right PEM type, KeyVal rebuilt; exactly five accepted encodings, nil "
+      "PEM block refused; SPIFFE conversion shape. Does not decide id distinctness or sign/verify capability.", "4.19")
+claim("C20", "cobra command-literal and flag-registration extraction + def-use of package variables into library parameters + error-flow + constant format agreement",
+      "Decides: commands attached and RunE; every library error returned; Execute => non-zero exit; match-products exit condition; flag->variable table, required flags, "
+      "variables passed to the right library parameters; link naming formats agree with the loader; key loaded before use and certificate attached; sign/verify command "
+      "shapes. Does not decide end-to-end acceptance of honest chains.", "4.20")
